@@ -51,6 +51,12 @@ def _install_depth_meter(mod):
         mon.set_local_events(tool, co, ev.PY_START | ev.PY_RETURN)
 
 
+class StateNo(int):
+    """a state number of a user-defined int type (what enum.IntEnum members are)"""
+    def __repr__(self):
+        return "StateNo(%d)" % int(self)
+
+
 def gen_random_graph(rng):
     n = rng.choice([1, 2, 3, 4, 5, 6, 8, 10, 15, 25, 40, 60])
     style = rng.choice(["sparse", "dense", "diamond", "scc", "forest"])
@@ -82,6 +88,12 @@ def gen_random_graph(rng):
         tl[u] += [("x", a), ("y", v)]
         tl[a] += [("x", v)]
         tl[b] += [("x", a), ("y", v)]
+    if rng.random() < 0.15:
+        # state numbers that are ints without being exactly `int`: bools in two-state graphs, an IntEnum-like subclass elsewhere
+        if n == 2:
+            tl = [[(lab, bool(v)) for lab, v in row] for row in tl]
+        else:
+            tl = [[(lab, StateNo(v)) for lab, v in row] for row in tl]
     kf = rng.choice([1, 1, 2, 3]) if n > 1 else 1
     finals = [rng.randrange(0, n) for _ in range(kf)]
     if rng.random() < 0.3:
